@@ -128,6 +128,12 @@ BigSerdeOK(r) == r.bin_len = 4 * r.n /\ r.bin_ok /\ r.json_ok /\ r.too_long_reje
 \* and slice_from_chunks is still the inverse (the driver compares with L div N, L mod N, (L div N) * N in 64 bits)
 ZstHugeOK(r) == r.count_ok /\ r.rem_ok /\ r.flat_ok
 
+\* borrowed views of ARRAYS of zero-sized elements whose length exceeds isize::MAX or 32 bits (C02): every view has N
+\* elements and starts at the array; a slice is reinterpreted only if its length is exactly N
+ZstViewsOK(r) == /\ \A i \in DOMAIN r.views : r.views[i].hi = r.n_hi /\ r.views[i].lo = r.n_lo /\ r.views[i].addr_ok
+                 /\ Len(r.views) = 12
+                 /\ r.exact_ok /\ r.short_rejected /\ r.long_rejected
+
 HeapBackedKinds == {"box", "vec", "bslice"}
 NeedsBlock(v) == cfg.rec /\ v.kind \in HeapBackedKinds /\ Len(v.items) > 0 /\ ~Anonymous
 HeapInv ==
